@@ -85,6 +85,11 @@ def _own_programs():
                                               [("B", "H", "W", 3)], {"inputs_as_nchw": [0]})
     P["o:nchw_out_sym_spatial"] = (lambda x: jnp.tanh(x) + jnp.ones(x.shape[1:], x.dtype), [("B", "H", "W", 3)],
                                    {"inputs_as_nchw": [0], "outputs_as_nchw": [0]})
+    # Pow broadcasts: the base may be smaller than the result (ops the unary propagation must not touch)
+    P["o:pow_scalar_base"] = (lambda x: 2.0 ** x, [sds((3, 4))])
+    P["o:exp2"] = (lambda x: jnp.exp2(x) + 1.0, [sds((2, 3))])
+    P["o:power_col_base"] = (lambda c, x: jnp.power(c, x), [sds((3, 1)), sds((3, 4))])
+    P["o:sym_pow_scalar_base"] = (lambda x: jnp.tanh(3.0 ** x), [("B", 4)])
     P["o:int_bcast"] = (lambda a, b: a[:, None] * b[None, :] + 1, [sds((3,), np.int32), sds((4,), np.int32)])
     return P
 
@@ -103,7 +108,7 @@ def own_names():
     return ["o:add_const11", "o:mul_npconst11", "o:add_npconst111_sin", "o:sym_add_npconst11", "o:scalar_plus_const11",
             "o:max_const11", "o:clip_consts", "o:transpose_add_transpose", "o:transpose_mul_const_relu",
             "o:sym_transpose_chain", "o:sym_broadcast_rows", "o:sym_bias", "o:sym_concat_self", "o:sym_mean_keepdims",
-            "o:reshape_add_const", "o:cast_chain", "o:where_cmp", "o:sym_two_aranges", "o:min_sym_const111", "o:x64_narrowing_cast", "o:nchw_sym_spatial_broadcast", "o:nchw_sym_spatial_broadcast_only", "o:nchw_out_sym_spatial", "o:int_bcast"]
+            "o:reshape_add_const", "o:cast_chain", "o:where_cmp", "o:sym_two_aranges", "o:min_sym_const111", "o:x64_narrowing_cast", "o:nchw_sym_spatial_broadcast", "o:nchw_sym_spatial_broadcast_only", "o:nchw_out_sym_spatial", "o:pow_scalar_base", "o:exp2", "o:power_col_base", "o:sym_pow_scalar_base", "o:int_bcast"]
 
 
 # ====================================================================== annotation snapshots (IR level)
@@ -1167,6 +1172,56 @@ def tie_loosen(ctx):
     return len(items)
 
 
+def check_unary_propagation(ctx):
+    """the REAL propagate_unary_shapes_ir on one small node per operator of the real UNARY_DATAFLOW_OPS (and per way of
+    giving it a second, differently shaped operand), judged against onnx's own strict shape inference"""
+    import onnx
+    import onnx_ir as ir
+    from onnx import TensorProto, helper, shape_inference
+    from jax2onnx.converter import ir_optimizations as opt
+    n_nodes = 0
+    skipped = []
+    for op in sorted(opt.UNARY_DATAFLOW_OPS):
+        try:
+            schema = onnx.defs.get_schema(op)
+        except Exception:  # noqa
+            skipped.append(op)
+            continue
+        combos = [[(3, 1)]] if schema.max_input == 1 else [[(3, 1)], [(3, 1), (3, 4)], [(3, 4), (3, 1)], [(), (3, 4)]]
+        for shapes in combos:
+            if len(shapes) < schema.min_input:
+                continue
+            names = [f"i{k}" for k in range(len(shapes))]
+            node = helper.make_node(op, names, ["y"], **({"to": TensorProto.FLOAT} if op == "Cast" else {}))
+            g = helper.make_graph([node], "g", [helper.make_tensor_value_info(n, TensorProto.FLOAT, list(sh)) for n, sh in zip(names, shapes)],
+                                  [helper.make_empty_tensor_value_info("y")])
+            m = helper.make_model(g, opset_imports=[helper.make_opsetid("", min(23, onnx.defs.onnx_opset_version()))])
+            try:
+                inf = shape_inference.infer_shapes(m, strict_mode=True)
+                tt = inf.graph.output[0].type.tensor_type
+                if not tt.HasField("shape") or not all(d.HasField("dim_value") for d in tt.shape.dim):
+                    continue
+                truth = tuple(int(d.dim_value) for d in tt.shape.dim)
+            except Exception:  # noqa  (not a valid use of the operator)
+                continue
+            vals = [ir.val(n, ir.DataType.FLOAT, tuple(sh)) for n, sh in zip(names, shapes)]
+            y = ir.val("y", ir.DataType.FLOAT, truth)
+            irg = ir.Graph(name="g", inputs=vals, outputs=[y], nodes=[ir.Node(op_type=op, domain="", inputs=vals, outputs=[y], name="n")],
+                           opset_imports={"": 21})
+            opt.propagate_unary_shapes_ir(irg)
+            n_nodes += 1
+            got = None if y.shape is None else tuple(y.shape.dims)
+            if got is not None and all(isinstance(d, int) for d in got) and tuple(got) != truth:
+                ctx.violate(f"propagate-unary:{op}:node",
+                            f"propagate_unary_shapes_ir re-annotates the output of {op}({', '.join(str(list(sh)) for sh in shapes)}) from {list(truth)} "
+                            f"(onnx strict shape inference) to {list(got)}: {op} is in UNARY_DATAFLOW_OPS but its result does not have the shape of its first input",
+                            {"kind": "unary_node", "op": op, "shapes": [list(sh) for sh in shapes]})
+                break
+    ctx.coverage["unary_propagation_on_real_function"] = {"operators": len(opt.UNARY_DATAFLOW_OPS), "nodes_judged_against_onnx_inference": n_nodes,
+                                                          "operators_without_schema": skipped}
+    ctx.oblige("unary-propagation:nodes-judged", n_nodes >= len(opt.UNARY_DATAFLOW_OPS) - len(skipped), "tie", f"{n_nodes} nodes")
+
+
 # ====================================================================== Coq checker on the converted exports
 def coq_annot_consistent(ctx, terms):
     """terms: [(key, Gallina omodel term)] -> {key: (consistent, offenders, rule_applies, derived)}"""
@@ -1234,6 +1289,10 @@ def run(ctx):
         evals += tie_loosen(ctx)
     except Exception:  # noqa
         ctx.oblige("tie:loosen-model", False, "tie", traceback.format_exc()[-1500:])
+    try:
+        check_unary_propagation(ctx)
+    except Exception:  # noqa
+        ctx.oblige("unary-propagation", False, "tie", traceback.format_exc()[-1500:])
     try:
         flush_cases(ctx)
     except Exception:  # noqa
@@ -1443,6 +1502,21 @@ def replay(path):
         w = refresh_witness_real(int(rep.get("variant", 1)))
         print(w or "the witness is annotated correctly now")
         return 1 if w else 0
+    if rep.get("kind") == "unary_node":
+        class _C:
+            def __init__(self):
+                self.violations, self.coverage = [], {}
+
+            def violate(self, k, w, r):
+                self.violations.append((k, w))
+
+            def oblige(self, *a, **k):
+                pass
+        c = _C()
+        check_unary_propagation(c)
+        hit = [v for v in c.violations if v[0] == f"propagate-unary:{rep['op']}:node"]
+        print(hit or "annotated correctly now")
+        return 1 if hit else 0
     if rep.get("kind") == "refresh_node":
         operands = [(k, None if sh is None else tuple(sh)) for k, sh in rep["operands"]]
         rr, _ = real_refresh(rep["op"], operands, None)
